@@ -5,7 +5,14 @@ A case (JSON-serialisable; replay never needs the PRNG):
    "reads": [{"name", "seq" (None = no sequence, BAM only), "comment" (FASTQ), "mapped": bool, "cigar_len": int|None}],
    "header": str|None, "rows": [[columns]]            -- the haplotag list, tab-separated columns
    "ploidy": int, "mode": "h12"|"o", "requested": [untagged, H1, ..] booleans,
-   "add": bool, "discard": bool, "largest": bool}
+   "add": bool, "discard": bool, "largest": bool,
+   -- optional (deepening E14):
+   "text": str          the list file verbatim (replaces header + rows; line ends, white space, blank lines … as given),
+   "quirk": str         which perturbation `text` carries (distribution only),
+   "list_gz": bool      the list file is written gzipped (list.tsv.gz),
+   "args": "none"|"untagged-only"|"h1+o"   anomalous output options (replaces mode/requested),
+   "pre": bool          every output file and the histogram exist beforehand with unrelated content,
+   reads[i]["cigar"]: [[op, n]…] (BAM; replaces cigar_len), reads[i]["flag"]: int (BAM, extra flag bits)}
 """
 import gzip, os
 
@@ -33,12 +40,19 @@ def gen_case(rng, scale=1, combo=None):
              "cigar_len": None}
         if fmt == "bam":
             x = rng.random()
-            if x < 0.2:
+            if x < 0.35:
                 r["mapped"] = True; r["cigar_len"] = L
+                if rng.random() < 0.6:
+                    r["cigar"] = gen_cigar(rng, L)   # unusual operators; query-consuming length = L
             if rng.random() < 0.2:
                 r["seq"] = None                      # no sequence: length inferred from CIGAR, else 0
                 if r["mapped"] and rng.random() < 0.3:
                     r["cigar_len"] = rng.choice(lens)
+                    r["cigar"] = gen_cigar(rng, r["cigar_len"]) if rng.random() < 0.7 else None
+                    if rng.random() < 0.15:
+                        r["cigar"] = [[5, rng.randrange(1, 9)]]          # only a hard clip: inferred length 0
+            if rng.random() < 0.3:                   # pairs / secondary / supplementary / duplicate / QC-fail bits
+                r["flag"] = rng.choice([0x1 | 0x40, 0x1 | 0x80, 0x100, 0x800, 0x400, 0x200, 0x1 | 0x2 | 0x40, 0x10])
         elif rng.random() < 0.2:
             r["comment"] = rng.choice(["ccs np=7", "1:N:0", "x"])
         reads.append(r)
@@ -53,12 +67,14 @@ def gen_case(rng, scale=1, combo=None):
     listed = [nm for nm in names_in_reads if rng.random() < p_listed]
     listed += [f"absent{i}" for i in range(rng.choice([0, 0, 1, 3]) or (0 if listed else 1))]
     rng.shuffle(listed)
-    dup_list = rng.random() < 0.06 and listed
+    # duplicate names in the list: rare in general; more often (and several copies) with --only-largest-block and
+    # without --discard-unknown-reads, where they decide between "number of lines" and "number of names" of a block
+    dup_list = rng.random() < (0.3 if (want_largest and not discard) else 0.06) and listed
     if dup_list:
-        listed += [rng.choice(listed) for _ in range(rng.choice([1, 2]))]
+        listed += [rng.choice(listed[:3]) for _ in range(rng.choice([1, 2, 4, 6] if want_largest else [1, 2]))]
     bad_hap = rng.random() < 0.04
-    n_chrom = rng.choice([1, 1, 2])
-    n_ps = rng.choice([1, 2, 3])
+    n_chrom = rng.choice([1, 1, 2, 3])
+    n_ps = rng.choice([1, 2, 2, 3])
     rows = []
     for nm in listed:
         h = rng.choice(["none"] + [f"H{i}" for i in range(1, ploidy + 1)] * 2)
@@ -82,8 +98,105 @@ def gen_case(rng, scale=1, combo=None):
             requested[rng.choice([1, 2])] = True
     else:
         requested = [want_untagged] + [True] * ploidy
-    return {"fmt": fmt, "reads": reads, "header": header, "rows": rows, "ploidy": ploidy, "mode": mode,
+    case = {"fmt": fmt, "reads": reads, "header": header, "rows": rows, "ploidy": ploidy, "mode": mode,
             "requested": requested, "add": add, "discard": discard, "largest": largest}
+    if mode == "o" and rng.random() < 0.05:          # a single -o: ploidy 1
+        case["ploidy"] = 1
+        case["requested"] = requested[:2]
+    x = rng.random()
+    if x < 0.05:
+        case["args"] = rng.choice(["none", "untagged-only", "h1+o"])
+    if rng.random() < 0.35:
+        case["text"], case["quirk"] = perturb_text(rng, case)
+    case["list_gz"] = rng.random() < 0.25
+    case["pre"] = rng.random() < 0.3
+    return case
+
+
+def gen_cigar(rng, qlen):
+    """a CIGAR whose query-consuming operators (M I S = X) sum to qlen, with D N H P sprinkled in"""
+    parts, left = [], qlen
+    if rng.random() < 0.4:
+        parts.append([5, rng.randrange(1, 6)])                          # leading hard clip
+    if left > 2 and rng.random() < 0.4:
+        k = rng.randrange(1, left - 1); parts.append([4, k]); left -= k  # soft clip
+    while left > 0:
+        k = rng.randrange(1, left + 1)
+        parts.append([rng.choice([0, 0, 0, 1, 7, 8]), k]); left -= k
+        if left > 0 and rng.random() < 0.5:
+            parts.append([rng.choice([2, 3, 6]), rng.randrange(1, 5)])
+    if rng.random() < 0.3:
+        parts.append([5, rng.randrange(1, 6)])
+    return parts
+
+
+def base_text(case):
+    lines = ([case["header"]] if case["header"] is not None else []) + ["\t".join(r) for r in case["rows"]]
+    return "".join(l + "\n" for l in lines)
+
+
+QUIRKS = ["crlf", "cr", "no-final-newline", "trailing-space", "leading-space", "leading-space-header", "blank-line",
+          "blank-line-end", "extra-column", "empty-last-column", "short-line", "first-line-wide", "header-narrow",
+          "hash-first-name", "inner-space", "unicode-name", "mixed-newlines", "third-column-only"]
+
+
+def perturb_text(rng, case):
+    """the list file verbatim, with one perturbation of the layout that the code's `strip()/split("\\t")` reading, its
+    header test on the raw first line or its column-count test react to"""
+    lines = ([case["header"]] if case["header"] is not None else []) + ["\t".join(r) for r in case["rows"]]
+    q = rng.choice(QUIRKS)
+    nl, final = "\n", True
+    data0 = 1 if case["header"] is not None else 0
+    ndata = len(lines) - data0
+    pick = (data0 + rng.randrange(ndata)) if ndata else None
+    four = bool(case["rows"]) and len(case["rows"][0]) >= 4
+    if q == "crlf":
+        nl = "\r\n"
+    elif q == "cr":
+        nl = "\r"
+    elif q == "no-final-newline":
+        final = False
+    elif q == "trailing-space" and pick is not None:
+        lines[pick] += rng.choice([" ", "\t", "\x0b", "\xa0", " \t ", "\x1f"])
+    elif q == "leading-space" and pick is not None:
+        lines[pick] = rng.choice([" ", "\t", "\xa0"]) + lines[pick]
+    elif q == "leading-space-header" and case["header"] is not None:
+        lines[0] = " " + lines[0]
+    elif q == "blank-line" and lines:
+        lines.insert(rng.randrange(len(lines) + 1), rng.choice(["", " ", "\t"]))
+    elif q == "blank-line-end":
+        lines.append("")
+    elif q == "extra-column" and lines:
+        for i in range(len(lines)):
+            if rng.random() < 0.6:
+                lines[i] += "\textra"
+    elif q == "empty-last-column" and pick is not None and four:
+        c = lines[pick].split("\t"); c[3] = ""; lines[pick] = "\t".join(c)
+    elif q == "short-line" and pick is not None:
+        c = lines[pick].split("\t"); lines[pick] = "\t".join(c[:(2 if four else 1)])
+    elif q == "first-line-wide" and lines and not four:
+        lines[0] += "\tphaseset\tchromosome"
+    elif q == "header-narrow" and case["header"] is not None and four:
+        lines[0] = "#readname\thaplotype"
+    elif q == "hash-first-name" and case["header"] is None and lines:
+        lines[0] = "#" + lines[0]
+    elif q == "inner-space" and pick is not None:
+        c = lines[pick].split("\t"); c[0] = c[0][:2] + " " + c[0][2:]; lines[pick] = "\t".join(c)
+    elif q == "unicode-name" and pick is not None:
+        c = lines[pick].split("\t"); c[0] = "ré" + c[0] + "ß"; lines[pick] = "\t".join(c)
+    elif q == "mixed-newlines":
+        text = "".join(l + rng.choice(["\n", "\r\n", "\r"]) for l in lines)
+        return text, q
+    elif q == "third-column-only" and lines and not four:
+        lines = [l + "\tx" for l in lines]
+    else:
+        q = "none"
+    text = nl.join(lines) + (nl if (final and lines) else "")
+    return text, q
+
+
+def list_text(case):
+    return case["text"] if case.get("text") is not None else base_text(case)
 
 
 def fastq_record(r):
@@ -93,12 +206,10 @@ def fastq_record(r):
 
 def write_inputs(case, d):
     """writes reads + list; returns (reads path, list path)"""
-    lp = os.path.join(d, "list.tsv")
-    with open(lp, "w") as f:
-        if case["header"] is not None:
-            f.write(case["header"] + "\n")
-        for row in case["rows"]:
-            f.write("\t".join(row) + "\n")
+    lp = os.path.join(d, "list.tsv" + (".gz" if case.get("list_gz") else ""))
+    data = list_text(case).encode("utf-8")
+    with (gzip.open(lp, "wb") if case.get("list_gz") else open(lp, "wb")) as f:
+        f.write(data)
     rp = os.path.join(d, "reads." + case["fmt"])
     if case["fmt"] == "bam":
         header = {"HD": {"VN": "1.6", "SO": "unsorted"}, "SQ": [{"SN": n, "LN": len(s)} for n, s in CONTIGS.items()]}
@@ -111,9 +222,11 @@ def write_inputs(case, d):
                     a.query_qualities = pysam.qualitystring_to_array("I" * len(r["seq"]))
                 if r["mapped"]:
                     a.flag = 0; a.reference_id = 0; a.reference_start = 10 + 7 * i; a.mapping_quality = 60
-                    a.cigartuples = [(0, r["cigar_len"])]
+                    a.cigartuples = [tuple(x) for x in r["cigar"]] if r.get("cigar") else [(0, r["cigar_len"])]
                 else:
                     a.flag = 4
+                if r.get("flag"):
+                    a.flag |= r["flag"]
                 a.set_tag("ix", i)
                 out.write(a)
     else:
@@ -130,6 +243,13 @@ def read_records(path, fmt):
     """independent reader: list of (text identifying the whole record, length)"""
     if not os.path.exists(path):
         return None
+    try:
+        return _read_records(path, fmt)
+    except (OSError, ValueError, EOFError) as e:     # not a gzip / BAM file at all (e.g. appended to a stale file)
+        return [("<unreadable output file: %s>" % type(e).__name__, -1)]
+
+
+def _read_records(path, fmt):
     out = []
     if fmt == "bam":
         with pysam.AlignmentFile(path, "rb", check_sq=False) as af:
@@ -159,6 +279,14 @@ def cli_args(case, d, rp, lp):
     ext = case["fmt"]
     paths = {}
     args = ["split"]
+    if case.get("args"):
+        rest = []
+        if case["args"] == "untagged-only":
+            rest = ["--output-untagged", os.path.join(d, f"untagged.{ext}")]
+        elif case["args"] == "h1+o":
+            rest = ["--output-h1", os.path.join(d, f"h1.{ext}"), "-o", os.path.join(d, f"o1.{ext}")]
+        hist = os.path.join(d, "hist.tsv")
+        return args + rest + ["--read-lengths-histogram", hist, rp, lp], {}, hist
     if case["mode"] == "h12":
         for k, opt in ((1, "--output-h1"), (2, "--output-h2")):
             if case["requested"][k]:
@@ -179,4 +307,21 @@ def cli_args(case, d, rp, lp):
         args.append("--only-largest-block")
     hist = os.path.join(d, "hist.tsv")
     args += ["--read-lengths-histogram", hist, rp, lp]
+    if case.get("pre"):
+        for p in list(paths.values()) + [hist]:
+            with open(p, "wb") as f:
+                f.write(b"@stale\nACGTACGTACGTACGTACGTACGTACGTACGTACGTACGTACGT\n+\nIIIIIIIIIIIIIIIIIIIIIIIIIIIIIIIIIIIIIIIIIIII\n" * 50)
     return args, paths, hist
+
+
+def out_args(case):
+    """the output options as the model sees them"""
+    if case.get("args") == "none":
+        return {"h1": False, "h2": False, "untagged": False}
+    if case.get("args") == "untagged-only":
+        return {"h1": False, "h2": False, "untagged": True}
+    if case.get("args") == "h1+o":
+        return {"h1": True, "h2": False, "outs": 1, "untagged": False}
+    if case["mode"] == "h12":
+        return {"h1": case["requested"][1], "h2": case["requested"][2], "untagged": case["requested"][0]}
+    return {"h1": False, "h2": False, "outs": case["ploidy"], "untagged": case["requested"][0]}
